@@ -352,6 +352,7 @@ pub static C07_META: PropMeta = PropMeta {
 
 fn c07_profiles() -> Vec<(&'static str, Profile, u32, u32)> {
     let mut p = Profile::base();
+    p.o_async = 2;
     p.k_comp = 2;
     p.o_token = 16;
     p.o_cause = 12;
@@ -553,6 +554,7 @@ pub static C09_META: PropMeta = PropMeta {
 
 fn c09_profiles() -> Vec<(&'static str, Profile, u32, u32)> {
     let mut p = Profile::base();
+    p.o_async = 2;
     p.k_comp = 2;
     p.post_pct = 45;
     p.err_pct = 8;
